@@ -27,14 +27,14 @@ theorem format_kept (fh : Nat → Nat) (h : formatOf fh = 1 ∨ formatOf fh = 5)
 /-- only bytes 3224 and 3225 (0-based) matter -/
 theorem format_field_position (fh fh' : Nat → Nat) (h0 : fh 3224 = fh' 3224) (h1 : fh 3225 = fh' 3225) :
     exportFormat fh = exportFormat fh' := by
-  unfold exportFormat formatOf; rw [h0, h1]
+  unfold exportFormat formatOf formatAt; rw [h0, h1]
 
 theorem unknown_format_falls_back (fh : Nat → Nat) (h : formatOf fh ≠ 1 ∧ formatOf fh ≠ 5) :
     exportFormat fh = 1 ∧ formatOf (exportFileHeader fh) = 1
     ∧ ∀ i, i ≠ 3224 → i ≠ 3225 → exportFileHeader fh i = fh i := by
   have hs : supportedFormat (formatOf fh) = false := by
     unfold supportedFormat; simp [h.1, h.2]
-  refine ⟨by simp [exportFormat, hs], by unfold exportFileHeader; rw [hs]; simp [formatOf], ?_⟩
+  refine ⟨by simp [exportFormat, hs], by unfold exportFileHeader; rw [hs]; simp [formatOf, formatAt], ?_⟩
   intro i h1 h2
   simp [exportFileHeader, hs, h1, h2]
 
